@@ -133,6 +133,13 @@ def run_case(case, ctx):
     if verb == "storeobject":
         data = run.contents[case["c"]]
         path = run.cpaths[case["c"]]
+        if case.get("dollar_path", case["c"] == 1):
+            # a file whose NAME contains "$HSVSITE" and "~" literally, while the environment defines HSVSITE and a twin with
+            # the expanded name (other bytes) exists next to it: options reach the API as given, nobody expands them
+            os.environ["HSVSITE"] = "alpha"
+            path = common.write_file(os.path.join(run.src, "~samples_$HSVSITE.csv"), data)
+            common.write_file(os.path.join(run.src, "~samples_alpha.csv"), b"the expanded twin - other bytes")
+            ctx.classify("path-with-dollar-and-tilde")
         argv.append(f"-path={path}")
         import hashlib
         algo = cks = cks_algo = size = None
